@@ -72,7 +72,7 @@ Definition err_code (x : err) : N :=
   match x with ENoC2S => 1 | EProcFailed => 2 | ESecret => 3 | EOther => 4 end.
 
 Record case := mkCase {
-  k_uni : bool;
+  k_kind : N;                         (* 0 bidirectional, 1 unidirectional, 2 station only *)
   k_cfg : rcfg; k_req : req; k_client_addr : option bytes; k_method : N; k_env : env;
   k_st : scfg;
   k_obs : obs
@@ -86,15 +86,24 @@ Definition fwd_and_station (k : case) (f : fwd) : bool :=
 
 Definition chk (k : case) : bool :=
   let o := k_obs k in
-  if k_uni k then
+  match k_kind k with
+  | 2 =>
+    (* an arbitrary (possibly hostile) wrapper is given to the station *)
+    let q := k_req k in
+    match o_station o with
+    | Some so => station_matches (station (k_st k) (mkFwd (q_secret q) (q_payload q) (q_forged_resp q) None (q_source q) (q_addr q))) so
+    | None => false
+    end
+  | 1 =>
     match register_uni (k_cfg k) (k_req k) (k_client_addr k) (k_method k) with
     | Ok f => (o_err o =? 0) && negb (is_some (o_resp o)) && fwd_and_station k f
     | Err x => (o_err o =? err_code x) && negb (o_sent o)
     | Panic => o_err o =? 5
     end
-  else
+  | _ =>
     match register_bd (k_cfg k) (k_req k) (k_client_addr k) (k_method k) (k_env k) with
     | Ok (r, f) => (o_err o =? 0) && oresp_eqb (Some r) (o_resp o) && fwd_and_station k f
     | Err x => (o_err o =? err_code x) && negb (is_some (o_resp o)) && negb (o_sent o)
     | Panic => o_err o =? 5
-    end.
+    end
+  end.
